@@ -922,13 +922,16 @@ fn ensure_datum_input(prog: &mut GProg) {
 fn gen_datum(g: &mut Gen, point: &str, prog: &mut GProg) -> Option<DataE> {
     let alts = [
         "none", "int", "int-n", "bytes", "bool", "unit", "record", "record-out-of-order", "variant", "variant-unit-case", "list", "map", "spread", "spread-all", "input-datum",
-        "input-field", "input-list-item", "concat", "nested-list", "input-list-item-by-name",
+        "input-field", "input-list-item", "concat", "nested-list", "input-list-item-by-name", "map-n-value", "map-n-key",
     ];
     let q = || DataE::Int(IntE::Param("q".into()));
     Some(match alts[g.pick(point, &alts)] {
         "none" => return None,
         "int" => DataE::Int(int_leaf(g, &format!("{point}.int"), prog)),
         "int-n" => DataE::List(vec![DataE::Int(ensure_n(prog)), DataE::Int(IntE::Sub(Box::new(IntE::Lit(0)), Box::new(ensure_n(prog))))]),
+        // a parameter that occurs nowhere but in the value / the key of a map entry
+        "map-n-value" => DataE::Map(vec![(DataE::Int(IntE::Lit(1)), DataE::Int(ensure_n(prog)))]),
+        "map-n-key" => DataE::Map(vec![(DataE::Int(ensure_n(prog)), DataE::Bytes(BytesE::Str("v".into())))]),
         "bytes" => DataE::Bytes(BytesE::Hex(vec![0xCA, 0xFE])),
         "bool" => DataE::Bool(true),
         "unit" => DataE::Unit,
